@@ -325,7 +325,13 @@ def run_unit(prop, unit, pcfg, cache, usize=8, seed=None, want_canary=True, forc
             sp = [x for x in d['spans'] if x['is_primary']] or d['spans']
             if not sp: continue                      # summary lines ("aborting due to ..") carry no location
             f = fn_at_line(gen, sp[0]['line_start'])
-            if f is None or f.external: bad = None; break
+            if f is None:
+                # not inside a function: a const item whose initialiser the front end rejects is left out (external)
+                c = next((c for c in getattr(gen, 'consts', []) if c.line_start <= sp[0]['line_start'] <= c.line_end and not c.external), None)
+                if c is None: bad = None; break
+                bad[(c.module, 'const ' + c.name)] = 'Verus front end: ' + d['message'][:200]
+                continue
+            if f.external: bad = None; break
             bad[(f.module, f.path)] = 'Verus front end: ' + d['message'][:200]
             # one diagnostic may list further occurrences of the same construct in other functions (secondary spans)
             for x in d['spans']:
@@ -403,6 +409,9 @@ def run_unit(prop, unit, pcfg, cache, usize=8, seed=None, want_canary=True, forc
         for lab in f.lost_sites:
             undec.append({'message': 'site obligation %s could not be placed' % lab, 'fn': f.path, 'module': f.module, 'kind': 'lost-anchor',
                           'line': f.line_start, 'rendered': '', 'labels': [lab]})
+    for cname in getattr(gen, 'lost_value_clauses', []):
+        undec.append({'message': 'constant abi::%s is left out of verification (its initialiser is outside the verifier\'s reach); its reference-value clause is not decided' % cname,
+                      'fn': None, 'module': 'abi', 'kind': 'lost-anchor', 'line': 0, 'rendered': '', 'labels': [], 'props': ['C19']})
     fails, undec = new_function_rule(unit, gen, fails, undec)
     def relevant(x):
         if x.get('props') is not None: return prop in x['props']      # a failed obligation turned undecided keeps its own property set
